@@ -1,7 +1,10 @@
 CONSTANTS Depth = 5
           Record = FALSE
           Wide = TRUE
+          Full = FALSE
 INIT Init
 NEXT Next
 INVARIANT StateOK
 INVARIANT SelfNow
+INVARIANT SessionsCollide
+INVARIANT InLaw
